@@ -266,6 +266,128 @@ example :
       ((e.pushTemp [(['x'], .scalar ['2'])]).1.pop .command).1.get ['x'] = some (.command, { value := .str ['1'], exported := true }) := by
   decide
 
+/-! ### …on every way the command can end -/
+
+/-- body operations that do not themselves open or close scopes (nested calls are balanced pairs of
+their own and are covered by applying the theorem to them first) -/
+def Flat : Op → Prop
+  | .push _ => False
+  | .pop _ => False
+  | .pushTemp _ => False
+  | _ => True
+
+private theorem run_flat_keeps : ∀ (ops : List Op) (e : Env), (∀ op ∈ ops, OpOk op ∧ Flat op) →
+    KeepsL e.scopes (run e ops).scopes := by
+  intro ops
+  induction ops with
+  | nil => intro e _; exact KeepsL.refl _
+  | cons op rest ih =>
+    intro e h
+    have hop := h op (List.mem_cons_self ..)
+    have hrest := ih (step e op) (fun o ho => h o (List.mem_cons_of_mem _ ho))
+    have hs := step_keeps e op hop.1
+    simp only [run]
+    cases op with
+    | push k => exact hop.2.elim
+    | pop k => exact hop.2.elim
+    | pushTemp items => exact hop.2.elim
+    | _ => exact KeepsL.trans hs hrest
+
+/-- **temp_assignments_removed_on_every_outcome.**  `n1=v1 … cmd`, for every environment, every list
+of prefix assignments and every way the command ends — it never starts (failing redirection on the
+call or on the function's definition, command not found, failing builtin), its function body stops
+part-way (failing command, `return`, fatal expansion error) or runs to its end — with any body made
+of the covered writers: both pops meet the scope they expect (`post_execute` removes the command
+scope that holds the temporary bindings, not something else), the scope stack is back to the
+caller's depth and kinds, every readonly binding of the caller is intact, and when the body wrote
+nothing the caller's environment is exactly the one from before the call. -/
+theorem temp_assignments_removed_on_every_outcome (e : Env) (items : List (Str × Lit)) (o : CallOutcome)
+    (h : ∀ op ∈ o.body, OpOk op ∧ Flat op) :
+    ∃ base', e.callWithTemp items o = ({ scopes := base' }, true) ∧ KeepsL e.scopes base' ∧
+      (o.body = [] → base' = e.scopes) := by
+  obtain ⟨m', hm⟩ := tempAssigns_top items (e.push .command) [] e.scopes rfl
+  have key : ∀ body : List Op, (∀ op ∈ body, OpOk op ∧ Flat op) →
+      ∃ base', postExecute ((e.pushTemp items).1.invokeFunction body) = ({ scopes := base' }, true) ∧
+        KeepsL e.scopes base' ∧ (body = [] → base' = e.scopes) := by
+    intro body hb
+    have hk := run_flat_keeps body ((e.pushTemp items).1.push .loc) hb
+    have hs : ((e.pushTemp items).1.push .loc).scopes = (Kind.loc, []) :: (Kind.command, m') :: e.scopes := by
+      show (Kind.loc, []) :: (tempAssigns (e.push .command) items).1.scopes = _
+      rw [hm]
+    rw [hs] at hk
+    match hrun : (run ((e.pushTemp items).1.push .loc) body).scopes, hk with
+    | (k1, l1) :: (k2, m2) :: base', ⟨hk1, _, hk2, _, hbase⟩ =>
+      refine ⟨base', ?_, hbase, ?_⟩
+      · simp [postExecute, Env.invokeFunction, Env.pop, hrun, ← hk1, ← hk2]
+      · intro hnil
+        subst hnil
+        simp only [run] at hrun
+        rw [hs] at hrun
+        simp only [List.cons.injEq] at hrun
+        exact hrun.2.2.symm
+  cases o with
+  | abortedBefore =>
+    refine ⟨e.scopes, ?_, KeepsL.refl _, fun _ => rfl⟩
+    have := temp_assignment_undone e items
+    simp [Env.callWithTemp, postExecute, this]
+  | abortedDuring ran => exact key ran h
+  | completed body => exact key body h
+
+/-- non-vacuity: `x=tmp f` over a global and a readonly, `f`'s body declaring a local, exporting and assigning -/
+example :
+    let e : Env := { scopes := [(.global, [(['x'], { value := .str ['g'] }), (['r'], { value := .str ['1'], readonly := true })])] }
+    let body : List Op := [.declare ['z'] {} .loc (some (.scalar ['1'])) false false true, .assign ['x'] none (.scalar ['b']) false]
+    (∀ op ∈ (CallOutcome.abortedDuring body).body, OpOk op ∧ Flat op) ∧
+      (e.callWithTemp [(['x'], .scalar ['t'])] (.abortedDuring body)) = (e, true) ∧
+      (e.callWithTemp [(['x'], .scalar ['t'])] .abortedBefore) = (e, true) := by
+  refine ⟨?_, by decide, by decide⟩
+  intro op hop
+  simp only [CallOutcome.body, List.mem_cons, List.mem_nil_iff, or_false] at hop
+  rcases hop with rfl | rfl <;> simp [OpOk, Flat]
+
+private theorem run_app : ∀ (a b : List Op) (e : Env), run e (a ++ b) = run (run e a) b
+  | [], _, _ => rfl
+  | op :: a, b, e => by simp only [List.cons_append, run]; exact run_app a b (step e op)
+
+/-- the tie to the correspondence: the operation sequence the check drives through brush's real
+`ShellEnvironment` and through the model for a call (`pt:… pu:l <body> po:l po:c`) is `callWithTemp` -/
+theorem callWithTemp_is_the_driven_sequence (e : Env) (items : List (Str × Lit)) (body : List Op) :
+    (e.callWithTemp items (.completed body)).1 = run e ([.pushTemp items, .push .loc] ++ body ++ [.pop .loc, .pop .command]) ∧
+      (e.callWithTemp items .abortedBefore).1 = run e [.pushTemp items, .pop .command] := by
+  constructor
+  · rw [run_app]
+    simp only [List.cons_append, List.nil_append, run, step, stepR, run_app, Env.callWithTemp, postExecute, Env.invokeFunction]
+  · simp only [run, step, stepR, Env.callWithTemp, postExecute]
+
+/-- the call as it goes when an early return between `enter_function` and `leave_function` skips
+the latter (a failing redirection of the function's definition set up after the function scope was
+entered): the Local scope stays on the stack and `post_execute` pops it in place of the command scope -/
+def callSkippingLeave (e : Env) (items : List (Str × Lit)) : Env × Bool :=
+  postExecute (((e.pushTemp items).1.push .loc), true)
+
+/-- **skipped_leave_function_leaks.**  …and then the leak is observable, in every environment where
+the name is not readonly: after `n=s f` the caller sees `n` bound to `s` in a left-over command
+scope, exported, `post_execute`'s pop reports the wrong scope kind, and the stack is one deeper. -/
+theorem skipped_leave_function_leaks (e : Env) (n s : Str) (hr : e.hidesReadonly n = false) :
+    (callSkippingLeave e [(n, .scalar s)]).2 = false ∧
+      (callSkippingLeave e [(n, .scalar s)]).1.get n = some (.command, { value := .str s, exported := true }) ∧
+      (callSkippingLeave e [(n, .scalar s)]).1.scopes.length = e.scopes.length + 1 := by
+  cases hg : getScopes n e.scopes with
+  | none =>
+    simp [callSkippingLeave, postExecute, Env.pushTemp, tempAssigns, Env.applyAssignment, Env.push, mget, hg,
+      Env.hidesReadonly, Env.get, getScopes, Env.add, addScopes, mset, Env.pop]
+  | some p =>
+    obtain ⟨k, v⟩ := p
+    have hv : v.readonly = false := by simpa [Env.hidesReadonly, Env.get, hg] using hr
+    simp [callSkippingLeave, postExecute, Env.pushTemp, tempAssigns, Env.applyAssignment, Env.push, mget, hg, hv,
+      Env.hidesReadonly, Env.get, getScopes, Env.add, addScopes, mset, Env.pop]
+
+/-- on a concrete caller: the temporary value replaces the exported global in the shell's view and in every later child -/
+example :
+    let e : Env := { scopes := [(.global, [(['x'], { value := .str ['g'], exported := true })])] }
+    (callSkippingLeave e [(['x'], .scalar ['t'])]).1.childEnv = [(['x'], ['t'])] ∧ e.childEnv = [(['x'], ['g'])] ∧
+      (e.callWithTemp [(['x'], .scalar ['t'])] .abortedBefore).1.childEnv = [(['x'], ['g'])] := by decide
+
 /-- a readonly variable is not hidden by a temporary assignment: the assignment is refused and the
 command runs in an empty command scope -/
 theorem readonly_not_hidden_by_temp_assignment (e : Env) (n : Str) (lit : Lit) (k : Kind) (v : Var)
